@@ -4,6 +4,7 @@ import CoolerModel.Model.Bins
 import CoolerModel.Model.FileModel
 import CoolerModel.Model.CSR
 import CoolerModel.Model.Index
+import CoolerModel.Model.Create
 import CoolerModel.Model.Balanced
 import CoolerModel.Model.Strings
 import CoolerModel.Model.Rename
